@@ -11,7 +11,7 @@ from pv.engine import Engine, MAX_PATHS
 from pv.evalx import from_py, lit_of
 from pv.source import BindingError
 from pv.state import State
-from pv.values import (V, VInt, VBool, VStr, VNONE, VNoneT, VTuple, VRef, VList, VOpt, VPy, VFn, VAny,
+from pv.values import (VMap, V, VInt, VBool, VStr, VNONE, VNoneT, VTuple, VRef, VList, VOpt, VPy, VFn, VAny,
                        OutOfSubset, fresh, fresh_name, kind_of, I, B, S)
 
 
@@ -112,6 +112,8 @@ class Verifier(Engine):
             if k == 'lmethod':
                 if isinstance(fv.recv, VStr):
                     return self.str_method(st, fv.recv, fv.name, args)
+                if isinstance(fv.recv, VMap):
+                    return self.map_method(st, fv.recv, fv.name, args)
                 return self.list_method(st, fv.recv, fv.name, args)
             if k == 'func':
                 return self.call_contract(st, fv.qual, args, kwargs)
@@ -409,6 +411,9 @@ class Verifier(Engine):
             if old is None:
                 continue
             st.heap[n] = z3.Const(fresh_name('H_' + n), old.sort())
+            if n == '$len':
+                l = z3.Int(fresh_name('l'))
+                st.pc.append(z3.ForAll([l], z3.Select(st.heap[n], l) >= 0, patterns=[z3.Select(st.heap[n], l)]))
         self.havocked.append(fld)
 
     def call_inline(self, st, qual, ctr, args, kwargs, setter):
@@ -551,6 +556,8 @@ class Verifier(Engine):
                 n = st.llen(recv.t)
                 i = self.norm_index(st, idx, n, 'list store')
                 st.lset_all(recv.t, z3.Store(st.larr(recv.t, recv.ek), i, self.elem_term(v, recv.ek)), recv.ek)
+            elif isinstance(recv, VMap):
+                st.mput(recv.t, self.map_key(recv, idx), self.as_ref(v) if not isinstance(v, VInt) else v.t, recv.kk)
             elif isinstance(recv, VRef):
                 self.map_set(st, recv, idx, v)
             else:
